@@ -232,7 +232,26 @@ def join_condition_is_conjunction(ctx, P, rule):
             for bi, t in g.calls():
                 nm = (t.get("f") or callee_name(t)).split("::")[-1]
                 if nm in ("any", "find", "find_map", "position") and t["args"] and any(x.startswith("cell:RdfJoinCondition.") for x in gx.tags(t["args"][0])):
-                    bad = (g, t["line"], nm)
+                    # `!list.any(differs)` is the conjunction written the other way round: an `any` whose result is negated before
+                    # it is used is accepted (the polarity of the closure itself is a value question and not decided)
+                    negated = False
+                    if nm == "any":
+                        d0 = t["dst"][0]
+                        al = {d0}
+                        for b2 in g.blocks:
+                            if b2["cl"]:
+                                continue
+                            for pl2, rv2, ln2 in b2["s"]:
+                                if rv2[0] == "use" and isinstance(rv2[1], list) and len(rv2[1]) > 1 and isinstance(rv2[1][1], list) and rv2[1][1] and rv2[1][1][0] in al and len(pl2) == 1:
+                                    al.add(pl2[0])
+                        for b2 in g.blocks:
+                            if b2["cl"]:
+                                continue
+                            for pl2, rv2, ln2 in b2["s"]:
+                                if rv2[0] in ("un", "unary") and "Not" in str(rv2[1]) and any(isinstance(z, list) and len(z) > 1 and isinstance(z[1], list) and z[1] and z[1][0] in al for z in rv2[1:]):
+                                    negated = True
+                    if not negated:
+                        bad = (g, t["line"], nm)
                 if t["args"] and any(x.startswith("cell:RdfJoinCondition.") for x in gx.tags(t["args"][0])):
                     n += 1
         ctx.ob(rule, "%s#all-shared-variables" % short_id(f.id), bad is None,
